@@ -279,7 +279,7 @@ var prop = harn.Register(&harn.Prop[Case]{Name: "TestConcurrentSessions", Run: r
 
 var opts = scen.GenOpts{
 	World: world.Opts{MaxFlows: 3, MaxNodes: 4, Languages: []string{"fra", "spa"}, QueryGroups: true, WebhookRefs: true, NoRandom: true,
-		Templates: []string{"@contact.groups", "@(contact.groups[0].name)", "@(json(contact.groups))", "@(foreach(contact.groups, (g) => g.name))", "@contact.fields", "@(json(globals))", "@globals", "@(json(contact.fields))"}, NoGeneratedIDs: true,
+		Templates: []string{"@contact.groups", "@(contact.groups[0].name)", "@(json(contact.groups))", "@(foreach(contact.groups, (g) => g.name))", "@contact.fields", "@(json(globals))", "@globals", "@(json(contact.fields))"}, NoGeneratedIDs: true, LocationHeavy: true,
 		// no rand()/now()-dependent or clock-dependent templates: outputs must be comparable modulo UUIDs and timestamps
 		Actions: []string{"send_msg", "set_run_result", "set_contact_name", "set_contact_field", "set_contact_language", "add_contact_groups", "remove_contact_groups", "enter_flow", "call_webhook", "add_contact_urn", "open_ticket", "set_contact_status"}},
 	StaleGroups: true,
@@ -302,12 +302,32 @@ func drawCase(t *rapid.T) Case {
 	assetsDoc, _ := json.Marshal(as)
 	c := Case{Assets: assetsDoc, Rounds: 2}
 	n := rapid.IntRange(2, 6).Draw(t, "goroutines")
+	// focused rounds: every goroutine starts the same flow and answers with texts aimed at that flow's router cases, so
+	// that the same shared structures (flow, groups, locations, lazily built values) are first used at the same time
+	focused := rapid.Bool().Draw(t, "focused")
+	var tr0 world.M
+	_ = json.Unmarshal(cs.Trigger, &tr0)
+	texts := []string{"red", "blue", "yes", "5", "hello", "18", "magic", "Centre", "Gasabo", "Gisozi", "Market", "Kigali", "I moved from East to Kigali last year", "1.234,5 francs", "Ndera"}
+	if focused {
+		hints := []string{}
+		for _, f := range w.Flows {
+			for _, nd := range f.Nodes {
+				hints = append(hints, nd.CaseHints...)
+			}
+		}
+		if len(hints) > 0 {
+			texts = hints
+		}
+	}
 	for i := 0; i < n; i++ {
 		var tr world.M
 		if i == 0 {
 			_ = json.Unmarshal(cs.Trigger, &tr)
 		} else {
 			tr = scen.DrawTrigger(t, w, opts)
+			if focused && tr0["flow"] != nil && tr["flow"] != nil {
+				tr["flow"] = tr0["flow"]
+			}
 		}
 		delete(tr, "triggered_on")
 		tr["triggered_on"] = "2024-03-10T09:59:00Z"
@@ -317,8 +337,11 @@ func drawCase(t *rapid.T) Case {
 		tb, _ := json.Marshal(tr)
 		sc := Script{Trigger: tb}
 		nres := rapid.IntRange(0, 3).Draw(t, "nresumes")
+		if focused {
+			nres = rapid.IntRange(1, 3).Draw(t, "nresumesfocused")
+		}
 		for k := 0; k < nres; k++ {
-			text := rapid.SampledFrom([]string{"red", "blue", "yes", "5", "hello", "18", "magic"}).Draw(t, "text")
+			text := rapid.SampledFrom(texts).Draw(t, "text")
 			rb, _ := json.Marshal(world.M{"type": "msg", "resumed_on": "2024-03-10T10:30:00Z", "msg": world.M{"uuid": world.UUID("msg", i*10+k+1), "text": text, "urn": "tel:+250788123456"}})
 			sc.Resumes = append(sc.Resumes, rb)
 		}
